@@ -56,7 +56,9 @@ def gen(rng, tier, spec):
             if role == 'w' or (role == 'm' and rng.chance(1, 2)):
                 if nmod < 7:
                     # a third of the modifies pass a value-category aware rvalue functor (flag 1)
-                    p.append([MODIFY, fids[nmod], 1] if rng.chance(1, 3) else [MODIFY, fids[nmod]])
+                    # flag 2: the modify is issued from a destructor while an unrelated exception unwinds
+                    fl = rng.weighted([(3, 0), (2, 1), (1, 2)])
+                    p.append([MODIFY, fids[nmod], fl] if fl else [MODIFY, fids[nmod]])
                     nmod += 1
             else:
                 p += _reader_session(rng, ns)
@@ -107,7 +109,17 @@ def gen(rng, tier, spec):
         sched = R.sched_runs(rng, nt, rng.range(0, 140), 12, cw)
     else:
         sched = R.any_sched(rng, nt, 140, cw)
-    return {'cfg': [ns] + plan, 'progs': progs, 'sched': sched}
+    # construction / mutex flavours (negative cfg entries: ignored by the throw plan and by the model)
+    flags = []
+    if rng.chance(1, 3):
+        flags.append(-1)          # built from an rvalue payload with a destructive move
+    if rng.chance(1, 3):
+        flags.append(-2)          # Mutex = std::timed_mutex; then mostly the timed shared forms
+        for p in progs:
+            for o in p:
+                if o[0] in LOCKS and rng.chance(2, 3):
+                    o[0] = rng.pick([TRY_FOR, TRY_UNTIL])
+    return {'cfg': [ns] + plan + flags, 'progs': progs, 'sched': sched}
 
 
 def gen_small(rng, spec):
@@ -127,7 +139,10 @@ def gen_small(rng, spec):
         progs = [[[MODIFY, f]], [[lock, 0], [LOCK, 1], [READ, 0], [READ, 1], [RELEASE, 0], [RELEASE, 1]]]
     nmod = sum(1 for p in progs for o in p if o[0] == MODIFY)
     plan = [rng.below(4 * nmod)] if rng.chance(1, 3) else []
-    return {'cfg': [2] + plan, 'progs': progs, 'sched': []}
+    flags = ([-1] if rng.chance(1, 3) else []) + ([-2] if lock in (TRY_FOR, TRY_UNTIL) else [])
+    if rng.chance(1, 4):
+        progs[0][0] = [MODIFY, f, 2]
+    return {'cfg': [2] + plan + flags, 'progs': progs, 'sched': []}
 
 
 # ---------------------------------------------------------------------------- monitors
